@@ -3,7 +3,7 @@
 # tree == HEAD + patch.diff, no test file touched, builds, whole existing suite passes with the patch,
 # demonstration fails with the patch and passes without. Output: /tmp/wt2-out/<id>/confirm.log, confirm.status
 id=$1; dirs=$2; rx=$3
-wt=/tmp/wt2/$id; out=/tmp/wt2-out/$id
+wt=${WTROOT:-/tmp/wt2}/$id; out=${WTROOT:-/tmp/wt2}-out/$id
 export GOFLAGS=-mod=mod GOPROXY=off GOTOOLCHAIN=local PATH=$HOME/go/pkg/mod/golang.org/toolchain@v0.0.1-go1.25.0.linux-amd64/bin:$PATH
 cd $wt || exit 1
 git checkout -q -- go.sum go.mod 2>/dev/null
